@@ -88,7 +88,20 @@ type vsT struct {
 	Hosts    []string `json:"hosts"`
 	Dests    []destT  `json:"dests"`
 	ExportTo []string `json:"exportTo"`
+	Gateways []string `json:"gateways,omitempty"` // empty = mesh (sidecars)
 	TS       int64    `json:"ts"`
+}
+
+// mesh reports whether the rule is bound to the sidecars (no gateways field, or "mesh" in it).
+func (v *vsT) mesh() bool { return len(v.Gateways) == 0 || contains(v.Gateways, "mesh") }
+
+// gwT is a Gateway resource with one HTTP server on port 80.
+type gwT struct {
+	Name     string            `json:"name"`
+	NS       string            `json:"ns"`
+	Selector map[string]string `json:"selector"`
+	Hosts    []string          `json:"hosts"` // server hosts, "namespace/dnsName" or "dnsName"
+	TS       int64             `json:"ts"`
 }
 
 type drT struct {
@@ -115,6 +128,7 @@ type world struct {
 	Sidecars []sidecarT `json:"sidecars,omitempty"`
 	VS       []vsT      `json:"virtualServices,omitempty"`
 	DR       []drT      `json:"destinationRules,omitempty"`
+	Gateways []gwT      `json:"gateways,omitempty"`
 	// PickFirst: features.SidecarPickBestServiceNamespace switched off (the documented legacy
 	// tie-break "first namespace alphabetically").
 	PickFirst bool `json:"pickFirstVisibleNamespace,omitempty"`
@@ -429,7 +443,20 @@ func (v vsT) config() config.Config {
 	}
 	return config.Config{
 		Meta: config.Meta{GroupVersionKind: gvk.VirtualService, Name: v.Name, Namespace: v.NS, CreationTimestamp: ts(v.TS)},
-		Spec: &networking.VirtualService{Hosts: v.Hosts, ExportTo: v.ExportTo, Http: []*networking.HTTPRoute{r}},
+		Spec: &networking.VirtualService{Hosts: v.Hosts, ExportTo: v.ExportTo, Gateways: v.Gateways, Http: []*networking.HTTPRoute{r}},
+	}
+}
+
+func (g gwT) config() config.Config {
+	return config.Config{
+		Meta: config.Meta{GroupVersionKind: gvk.Gateway, Name: g.Name, Namespace: g.NS, CreationTimestamp: ts(g.TS)},
+		Spec: &networking.Gateway{
+			Selector: g.Selector,
+			Servers: []*networking.Server{{
+				Port:  &networking.Port{Number: 80, Protocol: "HTTP", Name: "http"},
+				Hosts: g.Hosts,
+			}},
+		},
 	}
 }
 
@@ -485,6 +512,9 @@ func (w *world) configs() ([]config.Config, error) {
 	}
 	for _, d := range w.DR {
 		out = append(out, d.config())
+	}
+	for _, g := range w.Gateways {
+		out = append(out, g.config())
 	}
 	for _, c := range out {
 		sch, ok := collections.Pilot.FindByGroupVersionKind(c.GroupVersionKind)
